@@ -47,6 +47,7 @@ class ExecutionContext:
     on_metric: MetricHook | None
     on_log: LogHook | None
     operation: str | None
+    settled: bool = False
 
     @classmethod
     def create(
@@ -114,6 +115,7 @@ def record_success(ctx: ExecutionContext) -> None:
         return
 
     event = ctx.breaker.record_success()
+    ctx.settled = True
     ctx.emit_breaker_event(event, ctx.breaker.state)
 
 
@@ -121,6 +123,7 @@ def record_cancel(ctx: ExecutionContext) -> None:
     """Record cancellation with circuit breaker (no event emitted)."""
     if ctx.breaker is not None:
         ctx.breaker.record_cancel()
+        ctx.settled = True
 
 
 def record_failure(ctx: ExecutionContext, klass: ErrorClass) -> None:
@@ -129,7 +132,20 @@ def record_failure(ctx: ExecutionContext, klass: ErrorClass) -> None:
         return
 
     event = ctx.breaker.record_failure(klass)
+    ctx.settled = True
     ctx.emit_breaker_event(event, ctx.breaker.state, klass)
+
+
+def ensure_settled(ctx: ExecutionContext) -> None:
+    """
+    Release the breaker if an admitted call ended without a recorded outcome.
+
+    Covers exits that bypass the regular handlers (BaseException subclasses,
+    nested CircuitOpenError, raising callbacks) so a half-open probe slot is
+    never leaked.
+    """
+    if ctx.breaker is not None and not ctx.settled:
+        record_cancel(ctx)
 
 
 def classify_for_breaker(exc: BaseException, retry: Any) -> ErrorClass:
